@@ -211,16 +211,25 @@ CHECKS = {
              "clean declutter) and rejoins through the real join, set-primary and replicate-since handshake; "
              "the primary's history (multi-word, numeric-first and empty values, removes, increments, a "
              "database created while away) is split at random points into before / while-away / during-sync "
-             "parts, the writes during the synchronisation interleaved with the catch-up deliveries; TLC "
-             "validates the trace against Trace_Cluster group CONV at the quiescence after the rejoin.",
-        note="the recorded catch-up defects are covered by one deviation for the rejoined node's data: for that "
-             "node the check still decides termination, absence of other panics and convergence of every "
-             "other node, not byte-exact resynchronisation",
-        technique="TLA+ reference monitor + TLC trace validation of real rejoin runs on simulated links",
-        design="DESIGN.md §5 C05"),
+             "parts, the writes during the synchronisation interleaved with the catch-up deliveries. Every call "
+             "of the primary's catch-up builder is recorded with its inputs (raw operation log read from the "
+             "files, identifier maps, databases) and output lines, and TLC compares it with NunCatchUp.tla (the "
+             "builder transcribed: full and incremental synchronisation); TLC then validates the trace against "
+             "Trace_Cluster group CONV at the quiescence after the rejoin.",
+        note="the recorded catch-up defects are covered by one deviation for the rejoined node's data, enabled "
+             "only in runs whose catch-up lines conform to NunCatchUp: for such a node the check decides "
+             "termination, absence of other panics and convergence of every other node, not byte-exact "
+             "resynchronisation; a changed builder makes every divergence a violation",
+        technique="TLA+ transcription of the catch-up builder checked by TLC against every recorded call + TLA+ "
+                  "reference monitor validating real rejoin runs on simulated links",
+        design="DESIGN.md §A.8, §5 C05"),
     "C16": dict(
         level="fault_enumeration",
-        text="A node with its real replication loop (key-id registration, oplog append, oplog-valid flag, key "
+        text="NunIds.tla models the key-identifier protocol (register id, invalidate flag, append record, key-map "
+             "snapshot in two steps, kill between any two steps, start-up that discards an invalid log) and TLC "
+             "checks that after every start-up the log was discarded or decodes (the model with the repair of "
+             "invalidate_oplog undone must reproduce the fixed finding). "
+             "A node with its real replication loop (key-id registration, oplog append, oplog-valid flag, key "
              "map) runs every history of {first write of a new key, snapshot, kill + restart, clean shutdown + "
              "restart} up to length 4 (6 in the thorough tier) on a snapshotted database, and seeded histories "
              "of create-db / first writes of new keys / snapshots of a subset / "
@@ -231,7 +240,8 @@ CHECKS = {
              "against Trace_Ids (log discarded, or every record decodes to the database and key it was "
              "written for; database identifiers distinct).",
         note="kill = process kill between file-system calls; single node; histories are seeded samples",
-        technique="TLA+ reference trace spec + TLC validation of oplog decodes after restarts and crash images",
+        technique="explicit TLA+ model of the key-identifier / flag-file protocol with kills between file-system steps "
+                  "(NunIds, TLC) + TLA+ reference trace spec validating oplog decodes after restarts and crash images",
         design="DESIGN.md §5 C16"),
     "C13": dict(
         level="model_checking",
